@@ -31,7 +31,7 @@ def exhaustive(tier):
 
 
 def required(tier):
-    return {"cross_dimension_checked": 3000, "multi_step_chains": 300, "unreachable_checked": 200,
+    return {"cross_dimension_checked": 5000, "multi_step_chains": 300, "unreachable_checked": 200,
             "same_dimension_checked": 300, "forms": 6, "redefinition_cases": 100,
             "param_from_enclosing": 100, "tie_cases": 5}
 
@@ -39,7 +39,7 @@ def required(tier):
 def shards(tier, seed):
     out = []
     for i in range(4 if tier == "quick" else 8):
-        out.append({"kind": "bundled", "name": f"bundled{i}", "n": 500 if tier == "quick" else 6000})
+        out.append({"kind": "bundled", "name": f"bundled{i}", "n": 1500 if tier == "quick" else 8000})
     # the same generated case streams under different hash seeds
     streams = 3 if tier == "quick" else 12
     for st in range(streams):
@@ -153,15 +153,49 @@ def attempt(pint, fn):
         return ("other", type(e).__name__ + ": " + str(e)[:200])
 
 
+def discover_nodes(m, R, CM, gen):
+    """Every rule endpoint of every bundled context -> units of that dimension, found through the
+    model's dimension classes (plus the hand-written compounds of NODE_UNITS)."""
+    classes = gen.dimension_classes(m, [c for c in gen.canonical_units(m) if m.root(c)[0].v > 0])
+    by_dim = {}
+    for key, units in classes.items():
+        by_dim[CM.dimkey(dict(key))] = [u for u in units if u.isidentifier()][:8]
+    for expr_list in NODE_UNITS.values():
+        for expr in expr_list:
+            d = parse_units(R, expr)
+            by_dim.setdefault(CM.dimkey(m.dimvec(d)), [])
+            if expr not in by_dim[CM.dimkey(m.dimvec(d))]:
+                by_dim[CM.dimkey(m.dimvec(d))].append(expr)
+    out = {}
+    for cname, cd in m.contexts.items():
+        nodes = []
+        for r in cd["relations"]:
+            for end in (r["src"], r["dst"]):
+                k = CM.dimkey(m.dimvec(end))
+                if k in by_dim and by_dim[k] and k not in nodes:
+                    nodes.append(k)
+        for extra in ("[mass]", "[time]", "[length]"):
+            k = CM.dimkey(m.dimvec({extra: 1}))
+            if k not in nodes:
+                nodes.append(k)
+        out[cname] = nodes
+    return out, by_dim
+
+
 def run_bundled(spec, rec, rng, pint, pintload, R, CM):
+    from harness import gen
     m = R.default_model(pintload.REPO)
     ureg = pintload.registry(non_int_type=F)
     Q = ureg.Quantity
+    ctx_nodes, by_dim = discover_nodes(m, R, CM, gen)
+    for cname, nodes in ctx_nodes.items():
+        rec.observe("bundled_context_endpoints", f"{cname}:{len(nodes) - 3}")
     for i in range(spec["n"]):
-        cname = rng.choice(list(BUNDLED))
-        nodes, alias = BUNDLED[cname]
+        cname = rng.choice(list(ctx_nodes))
+        nodes = ctx_nodes[cname]
+        alias = (m.contexts[cname]["aliases"] or [None])[0]
         a, b = rng.sample(nodes, 2) if rng.random() < 0.9 else (nodes[0], nodes[0])
-        ua, ub = rng.choice(NODE_UNITS[a]), rng.choice(NODE_UNITS[b])
+        ua, ub = rng.choice(by_dim[a]), rng.choice(by_dim[b])
         da, db = parse_units(R, ua), parse_units(R, ub)
         x = F(rng.randint(1, 9999), rng.choice((1, 3, 10, 1000)))
         kwargs, mparams = {}, {}
